@@ -73,31 +73,43 @@ def scanExp (dv : Nat → Nat) (eb : Nat) (s : List Nat) : Option Int :=
     let v : Int := (Radix.ofDigits eb ds : Nat)
     some (if sgn then -v else v)
 
+/-- the base the digits are read in (set_str.c:223-228): |base|, 10 for base 0 -/
+def baseOf (base : Int) : Nat := if base < 0 then (-base).toNat else if base = 0 then 10 else base.toNat
+/-- the base the exponent is written in (set_str.c:223-226): the base itself, decimal for base ≤ 0 -/
+def expBaseOf (base : Int) : Nat := if base ≤ 0 then 10 else base.toNat
+
+/-- set_str.c:232-304 and 352-376 on the string after white space and sign; `b` = base of the digits (2..62),
+    `eb` = base of the exponent -/
+def parseBody (neg : Bool) (b eb : Nat) (s : List Nat) : Option Parsed :=
+  let dv := Radix.digitValue (if 36 < b then 224 else 0)                         -- :232-237
+  match s with
+  | [] => none                                                                   -- :240 (NUL is neither digit nor point)
+  | c :: rest =>
+    if ¬ (dv c < b ∨ (c = 46 ∧ dv (rest.headD 0) < b)) then none else            -- :240-248
+    let sp := splitLast b rest                                                   -- :252-263 (positions >= 1 only)
+    let mant := match sp with
+      | some (m, _) => c :: m
+      | none => c :: rest
+    match scanMant dv b mant with                                                -- :269-304
+    | none => none
+    | some (ds, dot) =>
+      -- :336-342: with a zero mantissa the function returns 0 before the exponent is looked at
+      if Radix.ofDigits b ds = 0 then some ⟨neg, b, ds, dot.getD 0, 0⟩ else
+      match sp with
+      | none => some ⟨neg, b, ds, dot.getD 0, 0⟩
+      | some (_, e) =>
+        match scanExp dv eb e with                                               -- :352-376
+        | none => none
+        | some x => some ⟨neg, b, ds, dot.getD 0, x⟩
+
 /-- mpf_set_str's reading of its arguments (set_str.c:209-304 and 352-376).  `none` = return value -1.
     `s0` is the C string (cut at the first NUL). -/
 def parse (base : Int) (s0 : List Nat) : Option Parsed :=
   let s1 := (s0.takeWhile (· != 0)).dropWhile Radix.isSpace                     -- :212
   let neg := s1.head? == some 45                                                 -- :216
   let s := if neg then s1.tail else s1
-  let eb : Nat := if base ≤ 0 then 10 else base.toNat                            -- :223-228
-  let b : Nat := if base < 0 then (-base).toNat else if base = 0 then 10 else base.toNat
-  if b < 2 ∨ 62 < b then none else                                               -- :230
-  let dv := Radix.digitValue (if 36 < b then 224 else 0)                         -- :232-237
-  match s with
-  | [] => none                                                                   -- :240 (NUL is neither digit nor point)
-  | c :: rest =>
-    if ¬ (dv c < b ∨ (c = 46 ∧ dv (rest.headD 0) < b)) then none else            -- :240-248
-    let (mant, ex) := match splitLast b rest with                                -- :252-263 (positions >= 1 only)
-      | some (m, e) => (c :: m, some e)
-      | none => (c :: rest, none)
-    match scanMant dv b mant with
-    | none => none
-    | some (ds, dot) =>
-      -- :336-342: with a zero mantissa the function returns 0 before the exponent is looked at
-      if Radix.ofDigits b ds = 0 then some ⟨neg, b, ds, dot.getD 0, 0⟩ else
-      match (match ex with | none => some (0 : Int) | some e => scanExp dv eb e) with
-      | none => none
-      | some x => some ⟨neg, b, ds, dot.getD 0, x⟩
+  if baseOf base < 2 ∨ 62 < baseOf base then none                                -- :230
+  else parseBody neg (baseOf base) (expBaseOf base) s
 
 /-! ## mpn_pow_1_highpart -/
 
